@@ -158,4 +158,199 @@ theorem loads_refines (cfg : Sp.Cfg) (env : Sp.Env) (req : Bool) (r : Sp.Respons
               · rfl
 
 
+/-! ## `check_subject_confirmation_in_response_to` (the comparison `loads` delegates to) -/
+
+theorem scanSc_eq (irp : Option String) (cs : List ConfD) :
+    Sp.scanSc irp (cs.map (fun d => ({ method := .bearer, data := d.map (fun i => ({ irt := i } : Sp.ScData)) } : Sp.SubjConf))) = cs.any (confMis irp) := by
+  induction cs with
+  | nil => rfl
+  | cons c cs ih =>
+    cases c with
+    | none => simp [Sp.scanSc, confMis, ih]
+    | some i =>
+      by_cases h : (i != irp) = true
+      · simp [Sp.scanSc, confMis, h]
+      · have h' : (i != irp) = false := by simpa using h
+        simp only [List.map_cons, Sp.scanSc, Option.map_some, List.any_cons, confMis, h', Bool.false_or]
+        simp only [Bool.false_eq_true, if_false]
+        exact ih
+
+def innerScanBody : List Stmt := [
+  (.assign "_data" (.attr (.name "_sc") "subject_confirmation_data")),
+  (.ifs (.and (.isNone (.name "_data") true) (.cmp .ne (.attr (.name "_data") "in_response_to") (.name "irp"))) [
+    (.ret (some (.bool false)))] [])]
+
+theorem optStr_ne (i irp : Option String) :
+    cmpVals .ne (optStr i) (optStr irp) = .ok (.bool (i != irp)) := by
+  cases i <;> cases irp <;> simp [optStr, cmpVals, bne]
+
+theorem scan_inner_step (n : Nat) (ext : Ext) (env : Env) (irp : Option String) (c : ConfD)
+    (hirp : lookup env "irp" = some (optStr irp)) :
+    evalBlock Sp.pyStrip ext (n + 8) (setVar env "_sc" (encConfD c)) innerScanBody =
+      if confMis irp c then .ret (.bool false) (setVar (setVar env "_sc" (encConfD c)) "_data" (dataOf c))
+      else .normal (setVar (setVar env "_sc" (encConfD c)) "_data" (dataOf c)) := by
+  have hirp' : ∀ v w, lookup (setVar (setVar env "_sc" v) "_data" w) "irp" = some (optStr irp) := by
+    intro v w
+    rw [lookup_setVar_ne _ _ _ _ (by decide), lookup_setVar_ne _ _ _ _ (by decide)]; exact hirp
+  cases c with
+  | none =>
+    simp [innerScanBody, evalBlock, evalStmt, evalExpr, lookup_setVar_same, encConfD, dataOf, lookup_cons_same, truthy, confMis]
+  | some i =>
+    by_cases h : (i != irp) = true
+    · simp [innerScanBody, evalBlock, evalStmt, evalExpr, lookup_setVar_same, encConfD, dataOf, lookup_cons_same, truthy, confMis, hirp',
+        optStr_ne, h]
+    · have h' : (i != irp) = false := by simpa using h
+      simp [innerScanBody, evalBlock, evalStmt, evalExpr, lookup_setVar_same, encConfD, dataOf, lookup_cons_same, truthy, confMis, hirp',
+        optStr_ne, h']
+
+
+def scanInnerB (n : Nat) (ext : Ext) : Env → Val → Flow := fun env v => evalBlock Sp.pyStrip ext (n + 8) (setVar env "_sc" v) innerScanBody
+def scanInnerE (n : Nat) (ext : Ext) : Env → Flow := fun env => evalBlock Sp.pyStrip ext (n + 8) env []
+
+theorem scan_inner_loop (n : Nat) (ext : Ext) (irp : Option String) : ∀ (cs : List ConfD) (env : Env),
+    lookup env "irp" = some (optStr irp) →
+    (cs.any (confMis irp) = true → ∃ e, forLoop (scanInnerB n ext) (scanInnerE n ext) (cs.map encConfD) env = .ret (.bool false) e) ∧
+    (cs.any (confMis irp) = false → ∃ e, forLoop (scanInnerB n ext) (scanInnerE n ext) (cs.map encConfD) env = .normal e ∧
+        lookup e "irp" = some (optStr irp)) := by
+  intro cs
+  induction cs with
+  | nil =>
+    intro env hirp
+    refine ⟨by simp, fun _ => ⟨env, by simp [forLoop, scanInnerE, evalBlock], hirp⟩⟩
+  | cons c cs ih =>
+    intro env hirp
+    have hstep := scan_inner_step n ext env irp c hirp
+    cases hm : confMis irp c with
+    | true =>
+      refine ⟨fun _ => ⟨setVar (setVar env "_sc" (encConfD c)) "_data" (dataOf c), ?_⟩, by simp [hm]⟩
+      simp only [List.map_cons, forLoop, scanInnerB]
+      rw [hstep]; simp [hm]
+    | false =>
+      have hirp2 : lookup (setVar (setVar env "_sc" (encConfD c)) "_data" (dataOf c)) "irp" = some (optStr irp) := by
+        rw [lookup_setVar_ne _ _ _ _ (by decide), lookup_setVar_ne _ _ _ _ (by decide)]; exact hirp
+      have ih' := ih _ hirp2
+      have hunf : forLoop (scanInnerB n ext) (scanInnerE n ext) ((c :: cs).map encConfD) env =
+          forLoop (scanInnerB n ext) (scanInnerE n ext) (cs.map encConfD)
+            (setVar (setVar env "_sc" (encConfD c)) "_data" (dataOf c)) := by
+        simp only [List.map_cons, forLoop, scanInnerB]
+        rw [hstep]; simp [hm]
+      rw [hunf]
+      simpa [List.any_cons, hm] using ih'
+
+def outerScanBody : List Stmt := [
+  (.for "_sc" (.attr (.attr (.name "assertion") "subject") "subject_confirmation") innerScanBody [])]
+
+def scanOuterB (n : Nat) (ext : Ext) : Env → Val → Flow := fun env v => evalBlock Sp.pyStrip ext (n + 11) (setVar env "assertion" v) outerScanBody
+def scanOuterE (n : Nat) (ext : Ext) : Env → Flow := fun env => evalBlock Sp.pyStrip ext (n + 11) env []
+
+theorem scan_outer_step (n : Nat) (ext : Ext) (env : Env) (a : AssD) :
+    scanOuterB n ext env (encAssD a) =
+      (match a with
+       | none => .raise "AttributeError" (setVar env "assertion" (encAssD none))
+       | some cs => forLoop (scanInnerB (n + 1) ext) (scanInnerE (n + 1) ext) (cs.map encConfD) (setVar env "assertion" (encAssD (some cs)))) := by
+  cases a with
+  | none => simp [scanOuterB, outerScanBody, evalBlock, evalStmt, evalExpr, lookup_setVar_same, encAssD, lookup_cons_same]
+  | some cs =>
+    have : scanOuterB n ext env (encAssD (some cs)) =
+        (match forLoop (scanInnerB (n + 1) ext) (scanInnerE (n + 1) ext) (cs.map encConfD) (setVar env "assertion" (encAssD (some cs))) with
+         | .normal e => Flow.normal e
+         | other => other) := by
+      simp [scanOuterB, outerScanBody, evalBlock, evalStmt, evalExpr, lookup_setVar_same, encAssD, lookup_cons_same]
+      rfl
+    show scanOuterB n ext env (encAssD (some cs)) =
+      forLoop (scanInnerB (n + 1) ext) (scanInnerE (n + 1) ext) (cs.map encConfD) (setVar env "assertion" (encAssD (some cs)))
+    rw [this]
+    generalize forLoop (scanInnerB (n + 1) ext) (scanInnerE (n + 1) ext) (cs.map encConfD) (setVar env "assertion" (encAssD (some cs))) = F
+    cases F <;> rfl
+
+theorem scan3_model (irp : Option String) (as : List AssD) :
+    Sp.scanAssertions irp (as.map toAssertion) = (scan3 irp as == .mismatch) := by
+  induction as with
+  | nil => rfl
+  | cons a as ih =>
+    cases a with
+    | none => rfl
+    | some cs =>
+      simp only [List.map_cons, Sp.scanAssertions, toAssertion, Option.map_some, scan3, scanSc_eq]
+      cases h : cs.any (confMis irp)
+      · simpa using ih
+      · rfl
+
+theorem scan_outer_loop (n : Nat) (ext : Ext) (irp : Option String) : ∀ (as : List AssD) (env : Env),
+    lookup env "irp" = some (optStr irp) →
+    match scan3 irp as with
+    | .ok => ∃ e, forLoop (scanOuterB n ext) (scanOuterE n ext) (as.map encAssD) env = .normal e
+    | .mismatch => ∃ e, forLoop (scanOuterB n ext) (scanOuterE n ext) (as.map encAssD) env = .ret (.bool false) e
+    | .attrErr => ∃ e, forLoop (scanOuterB n ext) (scanOuterE n ext) (as.map encAssD) env = .raise "AttributeError" e := by
+  intro as
+  induction as with
+  | nil =>
+    intro env _
+    exact ⟨env, by simp [forLoop, scanOuterE, evalBlock]⟩
+  | cons a as ih =>
+    intro env hirp
+    have hstep := scan_outer_step n ext env a
+    cases a with
+    | none =>
+      refine ⟨setVar env "assertion" (encAssD none), ?_⟩
+      simp only [List.map_cons, forLoop]
+      rw [hstep]
+    | some cs =>
+      have hirp1 : lookup (setVar env "assertion" (encAssD (some cs))) "irp" = some (optStr irp) := by
+        rw [lookup_setVar_ne _ _ _ _ (by decide)]; exact hirp
+      have hin := scan_inner_loop (n + 1) ext irp cs _ hirp1
+      cases hm : cs.any (confMis irp) with
+      | true =>
+        obtain ⟨e, hl⟩ := hin.1 hm
+        simp only [scan3, hm, if_true]
+        refine ⟨e, ?_⟩
+        simp only [List.map_cons, forLoop]
+        rw [hstep]; simp only []; rw [hl]
+      | false =>
+        obtain ⟨e, hl, hirpe⟩ := hin.2 hm
+        simp only [scan3, hm, Bool.false_eq_true, if_false]
+        have hunf : forLoop (scanOuterB n ext) (scanOuterE n ext) ((some cs :: as).map encAssD) env =
+            forLoop (scanOuterB n ext) (scanOuterE n ext) (as.map encAssD) e := by
+          simp only [List.map_cons, forLoop]
+          rw [hstep]; simp only []; rw [hl]
+        rw [hunf]
+        exact ih e hirpe
+
+theorem scan_shape : AuthnResponse_check_subject_confirmation_in_response_to.body = [
+    (.ifs (.isNone (.name "assertions") false) [(.assign "assertions" (.attr (.attr (.name "self") "response") "assertion"))] []),
+    (.for "assertion" (.name "assertions") outerScanBody []),
+    (.ret (some (.bool true)))] := rfl
+
+/-- **`check_subject_confirmation_in_response_to` refines `Sp.scanAssertions`**: for every list of assertions (each
+    with or without a Subject, any number of confirmations, each with or without data, any InResponseTo) and every
+    value to compare with, the CURRENT text of the method returns `False` exactly when the model's scan finds a
+    mismatch, raises `AttributeError` exactly when it meets an assertion without Subject first, and returns `True`
+    otherwise. -/
+theorem scan_refines (irp : Option String) (as : List AssD) :
+    run Sp.pyStrip noExt AuthnResponse_check_subject_confirmation_in_response_to [selfScan as, optStr irp, .none] =
+      (match scan3 irp as with
+       | .ok => .value (.bool true)
+       | .mismatch => .value (.bool false)
+       | .attrErr => .raised "AttributeError") ∧
+    Sp.scanAssertions irp (as.map toAssertion) = (scan3 irp as == .mismatch) := by
+  refine ⟨?_, scan3_model irp as⟩
+  let env1 : Env := setVar [("assertions", .none), ("irp", optStr irp), ("self", selfScan as)] "assertions" (.list (as.map encAssD))
+  have hirp : lookup env1 "irp" = some (optStr irp) := by
+    show lookup (setVar _ "assertions" _) "irp" = _
+    rw [lookup_setVar_ne _ _ _ _ (by decide)]; simp [lookup]
+  have hrun : run Sp.pyStrip noExt AuthnResponse_check_subject_confirmation_in_response_to [selfScan as, optStr irp, .none] =
+      (match (match forLoop (scanOuterB 50 noExt) (scanOuterE 50 noExt) (as.map encAssD) env1 with
+              | .normal e => Flow.ret (.bool true) e
+              | other => other) with
+       | .normal _ => .value .none
+       | .ret v _ => .value v
+       | .raise c _ => .raised c
+       | .brk _ => .stuck "break outside a loop"
+       | .cont _ => .stuck "continue outside a loop"
+       | .stuck w => .stuck w) := rfl
+  rw [hrun]
+  have hl := scan_outer_loop 50 noExt irp as env1 hirp
+  cases h3 : scan3 irp as <;> simp only [h3] at hl <;> obtain ⟨e, hl⟩ := hl <;> rw [hl]
+
+
 end PyTie
